@@ -793,3 +793,102 @@ Proof.
 Qed.
 
 End Range.
+
+(* ---------------------------------------------------------------------------------------------- *)
+(* Main theorem: sem commutes with mirroring                                                      *)
+(* ---------------------------------------------------------------------------------------------- *)
+Section Main.
+Variable e : env.
+Local Notation n := (tlen e).
+Local Notation e' := (mirror_env e).
+Local Notation mir := (mirror_st e).
+Local Notation ok := (st_ok e).
+
+Lemma mirror_seq : forall rec rec',
+  (forall x s, mirror_ok x = true -> ok s -> rec' (flip x) (mir s) = map_res (map mir) (rec x s)) ->
+  (forall x s, mirror_ok x = true -> ok s -> res_all ok (rec x s)) ->
+  forall l s, Forall (fun x => mirror_ok x = true) l -> ok s ->
+  seq_sem rec' (map flip l) (mir s) = map_res (map mir) (seq_sem rec l s).
+Proof.
+  intros rec rec' Hrec Hok l. induction l as [|x l IH]; intros s Hl Hs; [reflexivity|].
+  inversion Hl; subst. cbn [map seq_sem].
+  apply mirror_bindr with (ok := ok); [now apply Hrec|now apply Hok|].
+  intros a Ha. now apply IH.
+Qed.
+
+Lemma mirror_alt : forall rec rec' s,
+  (forall x, mirror_ok x = true -> rec' (flip x) (mir s) = map_res (map mir) (rec x s)) ->
+  forall l, Forall (fun x => mirror_ok x = true) l ->
+  alt_sem rec' (mir s) (map flip l) = map_res (map mir) (alt_sem rec s l).
+Proof.
+  intros rec rec' s Hrec l. induction l as [|x l IH]; intros Hl; [reflexivity|].
+  inversion Hl; subst. cbn [map alt_sem]. apply mirror_appr; [now apply Hrec|now apply IH].
+Qed.
+
+Theorem mirror_sem_partial : forall fuel t s, mirror_ok t = true -> ok s ->
+  sem e' fuel (flip t) (mir s) = map_res (map mir) (sem e fuel t s).
+Proof.
+  induction fuel as [|f IH]; intros t s Ht Hs; [reflexivity|].
+  pose proof (sem_pos_in_range e f) as IHok.
+  destruct t; cbn [mirror_ok] in Ht; cbn [flip].
+  - (* Char *) cbn [sem map_res pos mirror_st]. f_equal.
+    rewrite mirror_step_test by apply Hs.
+    destruct ((0 <? avail e o (pos s)) && char_test e k c (next_char e o (pos s))); [|reflexivity].
+    cbn [map]. rewrite mirror_with_pos, mirror_dir. do 2 f_equal. lia.
+  - (* CharLoop *) cbn [sem map_res]. f_equal. apply mirror_sem_charloop. apply Hs.
+  - (* Multi *) cbn [sem map_res]. f_equal. apply mirror_sem_multi. apply Hs.
+  - (* Ref *) cbn [sem map_res]. f_equal. now apply mirror_sem_ref.
+  - (* Anchor *) cbn [sem map_res pos mirror_st]. f_equal.
+    rewrite mirror_anchor_ok; [|apply Hs|intros ->; discriminate].
+    destruct (anchor_ok e a (pos s)); reflexivity.
+  - reflexivity.
+  - reflexivity.
+  - reflexivity.
+  - (* Concat *) rewrite !mirror_sem_concat_eq.
+    apply mirror_seq; [exact IH|exact IHok|now apply mirror_ok_list|assumption].
+  - (* Alternate *) rewrite !mirror_sem_alt_eq.
+    apply mirror_alt; [|now apply mirror_ok_list]. intros x Hx. now apply IH.
+  - (* Loop *) cbn [sem].
+    assert (Hb : forall s0, ok s0 -> sem e' f (flip t) (mir s0) = map_res (map mir) (sem e f t s0))
+      by (intros; now apply IH).
+    assert (Hbo : forall s0, ok s0 -> res_all ok (sem e f t s0)) by (intros; now apply IHok).
+    destruct (m =? 0).
+    + apply mirror_iter; try assumption. destruct Hs as [Hp _]. lia.
+    + apply mirror_bindr with (ok := ok); [now apply Hb|now apply Hbo|].
+      intros a Ha. cbn [pos mirror_st]. apply mirror_iter; try assumption. lia.
+  - (* Capture *) cbn [sem]. apply andb_prop in Ht. destruct Ht as [Hgu Ht].
+    destruct (u =? -1) eqn:Eu.
+    + apply mirror_bindr with (ok := ok); [now apply IH|now apply IHok|].
+      intros a Ha. cbn [map_res map pos caps mirror_st]. do 2 f_equal.
+      unfold mirror_st. cbn [pos caps]. f_equal.
+      rewrite <- mirror_cap_push, mirror_span_span. reflexivity.
+    + cbn [orb] in Hgu. rewrite Hgu.
+      apply mirror_bindr with (ok := ok); [now apply IH|now apply IHok|].
+      intros a Ha. cbn [caps mirror_st]. rewrite mirror_cap_get.
+      destruct (cap_get u (caps a)); [reflexivity|].
+      cbn [map map_res pos]. rewrite mirror_cap_pop. reflexivity.
+  - (* Group *) cbn [sem]. now apply IH.
+  - (* PosLook *) cbn [sem].
+    rewrite (mirror_first_only mir _ _ (IH t s Ht Hs)).
+    destruct (first_only (sem e f t s)) as [l| | |]; cbn [bind map_res]; try reflexivity.
+    f_equal. rewrite !map_map. apply map_ext. reflexivity.
+  - (* NegLook *) cbn [sem]. rewrite (IH t s Ht Hs).
+    destruct (sem e f t s) as [[|a l]| | |]; reflexivity.
+  - (* Atomic *) cbn [sem]. apply mirror_first_only. now apply IH.
+  - (* BackRefCond *) cbn [sem]. apply andb_prop in Ht. destruct Ht as [Hy Hn].
+    cbn [caps mirror_st]. rewrite mirror_is_matched.
+    destruct (is_matched g (caps s)); [now apply IH|].
+    destruct no as [x|]; cbn [opt_forall option_map] in *; [now apply IH|reflexivity].
+  - (* ExprCond *) cbn [sem]. apply andb_prop in Ht. destruct Ht as [Hcy Hn].
+    apply andb_prop in Hcy. destruct Hcy as [Hc Hy].
+    rewrite (mirror_first_only mir _ _ (IH t1 s Hc Hs)).
+    pose proof (mirror_first_only_ok ok _ (IHok t1 s Hc Hs)) as H.
+    destruct (first_only (sem e f t1 s)) as [[|a l]| | |]; cbn [bind map_res map res_all] in *;
+      try reflexivity.
+    + destruct no as [x|]; cbn [opt_forall option_map] in *; [now apply IH|reflexivity].
+    + inversion H; subst.
+      change (with_pos (mir a) (pos (mir s))) with (mir (with_pos a (pos s))).
+      apply IH; [assumption|]. apply mirror_with_pos_ok; [assumption|apply Hs].
+Qed.
+
+End Main.
